@@ -513,3 +513,28 @@ func cmpParams(f *ssa.Function) (lit, val *ssa.Parameter) {
 	}
 	return
 }
+
+// filterEvalField: the field of Filter that holds the evaluator the filter was created with — by its type: *Evaluator,
+// or an interface of the module that *Evaluator implements.
+func filterEvalField(prog *Program) string {
+	ft, ok := prog.Bexpr.Types.Scope().Lookup("Filter").(*types.TypeName)
+	et, ok2 := prog.Bexpr.Types.Scope().Lookup("Evaluator").(*types.TypeName)
+	if !ok || !ok2 {
+		return "evaluator"
+	}
+	st, ok := ft.Type().Underlying().(*types.Struct)
+	if !ok {
+		return "evaluator"
+	}
+	pe := types.NewPointer(et.Type())
+	for i := 0; i < st.NumFields(); i++ {
+		t := st.Field(i).Type()
+		if types.Identical(t, pe) {
+			return st.Field(i).Name()
+		}
+		if it, isI := t.Underlying().(*types.Interface); isI && it.NumMethods() > 0 && types.Implements(pe, it) {
+			return st.Field(i).Name()
+		}
+	}
+	return "evaluator"
+}
